@@ -295,17 +295,21 @@ def run(prog: Program, L: Ledger) -> None:
     L.check(accv is not None, "A", "ForceBias.step:loop-exit", f"{step.module.relpath}:{lp.lineno}",
             f"rejection loop condition is `{norm(lp.ast)}`, not `not np.all(<accepted>)` / `np.any(<rejected>)`", "the step ends with unaccepted components / never ends", norm(lp.ast))
     npaths = 0
+    refusals = 0
     for path in cfg.paths(max_back=2, include_exc=False):
         npaths += 1
         sp_nodes = [(i, n) for i, (n, lab) in enumerate(path) if n.kind == "stmt" and any(isinstance(c, ast.Call) and norm(c.func) == "self.atoms.set_positions" for c in ast.walk(n.ast))]
         last_loop = max([i for i, (n, lab) in enumerate(path) if n is lp], default=-1)
         okp = len(sp_nodes) == 1 and sp_nodes[0][0] > last_loop
+        if path[-1][0] is cfg.raise_exit and not sp_nodes:
+            refusals += 1  # an explicit error raised before the configuration was touched: the step did not happen
+            continue
         if not okp:
             L.violation("A", "ForceBias.step:single-advance", step.where, f"a path performs {len(sp_nodes)} position updates (or updates inside the rejection loop)",
                         "the configuration advances twice / before all components are accepted", f"{len(sp_nodes)}")
             break
     else:
-        L.ok("A", "ForceBias.step:single-advance", step.where, f"{npaths} paths")
+        L.ok("A", "ForceBias.step:single-advance", step.where, f"{npaths} paths ({refusals} of them raise before any position write)")
     if accv is None:
         return
     # loop body: masked re-draws only; acceptance P > u
